@@ -47,15 +47,38 @@ impl WalPathManager {
         self.ensure_root()?;
         let file_name = now_millis_str();
         let path = self.root.join(&file_name);
+        #[cfg(feature = "verif")]
+        {
+            crate::wal::verif::io_event("create", &path.to_string_lossy(), 0, 0);
+            if crate::wal::verif::should_fail("create") {
+                return Err(crate::wal::verif::injected("create"));
+            }
+        }
         let f = std::fs::File::create(&path)?;
+        #[cfg(feature = "verif")]
+        {
+            crate::wal::verif::io_event("set_len", &path.to_string_lossy(), 0, MAX_FILE_SIZE);
+            if crate::wal::verif::should_fail("set_len") {
+                return Err(crate::wal::verif::injected("set_len"));
+            }
+        }
         f.set_len(MAX_FILE_SIZE)?;
 
         // Sync file metadata (size, etc.) to disk
+        #[cfg(feature = "verif")]
+        {
+            crate::wal::verif::io_event("fsync", &path.to_string_lossy(), 0, 0);
+            if crate::wal::verif::should_fail("create_fsync") {
+                return Err(crate::wal::verif::injected("create_fsync"));
+            }
+        }
         f.sync_all()?;
 
         // CRITICAL for Linux: Sync parent directory to ensure directory entry is durable
         // Without this, the file might exist but not be visible in directory listing after crash
         let dir = std::fs::File::open(&self.root)?;
+        #[cfg(feature = "verif")]
+        crate::wal::verif::io_event("fsync_dir", &self.root.to_string_lossy(), 0, 0);
         dir.sync_all()?;
 
         Ok(path.to_string_lossy().into_owned())
